@@ -161,33 +161,38 @@ def c15_1(ctx: Ctx) -> RuleResult:
                     res.add(g, c, "the results signal follows the evaluation on every normal path", p2 is None,
                             "" if p2 is None else "evaluation results may never be signalled", [] if p2 is None else describe_path(g, p2),
                             construct=f"{g.name}: signal(results) after calculate")
-    # the signal function maps None -> START_EVALUATION, results -> FINISHED_EVALUATION
+    # the signal function (the callable a step hands to the optimizer as `signal_evaluation=`) maps
+    # None -> START_EVALUATION, results -> FINISHED_EVALUATION
+    from ..util import bool_nnf, path_condition
+
+    signal_funcs = []
     for run in step_run_methods(ctx):
-        c = run.cls
-        if c is None:
-            continue
-        for m in c.methods.values():
-            sites = emit_sites(ctx, m)
-            if m is run or not sites:
+        for call_ in calls_in(run):
+            for kw in call_.keywords:
+                if kw.arg and "signal" in kw.arg:
+                    for g in ctx.cg.resolve_fn(ctx.X.at(run, kw.value), run):
+                        if g not in signal_funcs:
+                            signal_funcs.append(g)
+    for m in signal_funcs:
+        c = m.cls
+        rp = ("param", m.qualname, m.positional[1]) if len(m.positional) > 1 else None
+        for call, types in emit_sites(ctx, m):
+            if not types & {"START_EVALUATION", "FINISHED_EVALUATION"}:
                 continue
-            for call, types in sites:
-                if not types & {"START_EVALUATION", "FINISHED_EVALUATION"}:
-                    continue
-                # controlling `results is None` test
-                cur, child = parent(call), call
-                pol = None
-                while cur is not None and cur is not m.node:
-                    if isinstance(cur, ast.If):
-                        t = cur.test
-                        if isinstance(t, ast.Compare) and len(t.ops) == 1 and isinstance(t.ops[0], (ast.Is, ast.IsNot)) and isinstance(t.comparators[0], ast.Constant) and t.comparators[0].value is None:
-                            in_body = any(child is s or child in ast.walk(s) for s in cur.body)
-                            is_none = isinstance(t.ops[0], ast.Is)
-                            pol = is_none if in_body else not is_none
-                    child, cur = cur, parent(cur)
-                want = "START_EVALUATION" in types
-                ok = pol is not None and pol == want and len(types & {"START_EVALUATION", "FINISHED_EVALUATION"}) == 1
-                res.add(m, call, "START_EVALUATION is emitted iff no results are passed, FINISHED_EVALUATION iff results are passed", ok,
-                        "" if ok else "the evaluation signal emits the wrong event type for this branch", construct=f"{c.name}.{m.name}: {sorted(types)}")
+            st_ = call
+            while parent(st_) is not None and not isinstance(st_, ast.stmt):
+                st_ = parent(st_)
+            pol = None
+            pc = path_condition(ctx, m, st_)
+            if pc:
+                g_ = bool_nnf(("bool", "and", tuple(c_ if p_ else ("unary", "not", c_) for c_, p_ in pc)))
+                for it in (g_[1] if g_[0] == "and" else [g_]):
+                    if it[0] == "lit" and it[1][0] == "cmp" and it[1][1] == "is" and it[1][3] == ("const", None) and (rp is None or it[1][2] == rp):
+                        pol = it[2]
+            want = "START_EVALUATION" in types
+            ok = pol is not None and pol == want and len(types & {"START_EVALUATION", "FINISHED_EVALUATION"}) == 1
+            res.add(m, call, "START_EVALUATION is emitted iff no results are passed, FINISHED_EVALUATION iff results are passed", ok,
+                    "" if ok else "the evaluation signal emits the wrong event type for this branch", construct=f"{c.name if c else ''}.{m.name}: {sorted(types)}")
     res.floor = 10
     return res
 
